@@ -77,6 +77,8 @@ def rule_r2(facts, rep, rid="C05-R2"):
             key = "%s|from_rel_link_url(dir)|%d" % (f.def_, i)
             if q.has_call(pv, "Key::parent") or any(a[0] == "param" and a[1] in ("relative_to", "parent") for a in pv):
                 rep.ok(rid, key, "directory argument derives from Key::parent() / a relative_to parameter", loc(f, call))
+            elif _cached_parent(facts, f, c, call["args"][1]):
+                rep.ok(rid, key, "directory argument is a field that every constructor of the type fills with <note key>.parent()", loc(f, call))
             else:
                 rep.violation(rid, key, "second argument of from_rel_link_url is not derived from the containing note's parent(): %s" % sorted(pv)[:6], loc(f, call))
             # ... and the first is the url as written: cutting it (at a `#`, a `?`, a prefix, by case) before it is resolved makes the key - which is all that is written back -
@@ -92,6 +94,33 @@ def rule_r2(facts, rep, rid="C05-R2"):
             else:
                 rep.ok(rid, key, "url passed as written", loc(f, call))
     rep.floor(rid, "call sites of Key::from_rel_link_url", m, 5)
+
+
+def _cached_parent(facts, f, c, e):
+    """`&self.parent` where the field is a cache: every place that gives the field a value gives it `<key>.parent()`, and the same literal stores that key in its `key` field (or the type
+    has no key field)."""
+    while e is not None and e.get("k") in ("addrof", "unary"):
+        e = e["e"]
+    if e is None or e.get("k") == "mcall" and e["name"] in ("clone", "as_str", "as_ref", "to_string"):
+        e = e["recv"] if e is not None else None
+        while e is not None and e.get("k") in ("addrof", "unary"):
+            e = e["e"]
+    if e is None or e.get("k") != "field" or not f.impl_self:
+        return False
+    base = e["e"]
+    while base is not None and base.get("k") in ("addrof", "unary"):
+        base = base["e"]
+    if base is None or base.get("k") != "path" or base.get("name") != "self":
+        return False
+    from .common import field_sources
+    srcs = field_sources(facts, fb.norm(f.impl_self).split("<")[0], e["name"])
+    if not srcs:
+        return False
+    for g, src in srcs:
+        pv = ctx(g).vprov(src)
+        if not q.has_call(pv, "Key::parent"):
+            return False
+    return True
 
 
 def rule_r3(facts, rep, rid="C05-R3"):
